@@ -84,33 +84,51 @@ def coq_make(targets, timeout=1500, keep_going=True):
 THM_RE = re.compile(r"^\s*(Theorem|Lemma|Corollary|Example|Fact|Proposition)\s+([A-Za-z0-9_']+)", re.M)
 
 
-def props_file(pid):
-    return os.path.join(COQ, "Props", "Properties_%s.v" % pid)
+def props_files(pid):
+    """Props/Properties_<pid>.v plus any Props/Properties_<pid>_<part>.v (parts owned by
+    different engines), in a stable order."""
+    d = os.path.join(COQ, "Props")
+    main = os.path.join(d, "Properties_%s.v" % pid)
+    fs = ([main] if os.path.exists(main) else []) + sorted(glob.glob(os.path.join(d, "Properties_%s_*.v" % pid)))
+    return fs
 
 
 def check_props(pid, timeout=1500, extra_targets=()):
-    """Build Props/Properties_<pid>.vo from a forced recompile of that file.
+    """Force-recompile every Properties file of the property and build it (make -k).
     Returns dict: obligations, discharged, theorems, axioms{thm:[...]}, failed (list), log."""
-    pf = props_file(pid)
-    src = open(pf).read()
-    thms = [m.group(2) for m in THM_RE.finditer(src) if m.group(1) != "Example"]
-    examples = [m.group(2) for m in THM_RE.finditer(src) if m.group(1) == "Example"]
-    vo = pf[:-2] + ".vo"
-    for ext in (".vo", ".glob", ".vok", ".vos"):
-        try:
-            os.remove(pf[:-2] + ext)
-        except OSError:
-            pass
-    target = "Props/Properties_%s.vo" % pid
-    ok, log = coq_make([target] + list(extra_targets), timeout=timeout)
-    res = {"theorems": thms, "examples": examples, "obligations": len(thms),
-           "discharged": 0, "axioms": {}, "failed": [], "log": log, "ok": False}
-    if ok and os.path.exists(vo):
-        res["discharged"] = len(thms)
-        res["ok"] = True
-        res["axioms"] = parse_assumptions(log, thms + examples)
-    else:
-        res["failed"] = locate_failure(log, pid, thms)
+    res = {"theorems": [], "examples": [], "obligations": 0, "discharged": 0, "axioms": {},
+           "failed": [], "log": "", "ok": True, "files": []}
+    files = props_files(pid)
+    if not files:
+        res["ok"] = False
+        res["failed"] = ["no Props/Properties_%s*.v file" % pid]
+        return res
+    for pf in files:
+        for ext in (".vo", ".glob", ".vok", ".vos"):
+            try:
+                os.remove(pf[:-2] + ext)
+            except OSError:
+                pass
+    for pf in files:
+        src = strip_comments(open(pf).read())
+        thms = [m.group(2) for m in THM_RE.finditer(src) if m.group(1) != "Example"]
+        examples = [m.group(2) for m in THM_RE.finditer(src) if m.group(1) == "Example"]
+        # Print Assumptions order = order of statements in the file (theorems and examples that print)
+        printed = re.findall(r"Print\s+Assumptions\s+([A-Za-z0-9_']+)", src)
+        rel = os.path.relpath(pf, COQ)
+        target = rel[:-2] + ".vo"
+        ok, log = coq_make([target] + list(extra_targets), timeout=timeout)
+        res["files"].append(rel)
+        res["theorems"] += thms
+        res["examples"] += examples
+        res["obligations"] += len(thms)
+        res["log"] += log
+        if ok and os.path.exists(pf[:-2] + ".vo"):
+            res["discharged"] += len(thms)
+            res["axioms"].update(parse_assumptions(log, printed if printed else thms + examples))
+        else:
+            res["ok"] = False
+            res["failed"] += locate_failure(log, pid, thms)
     return res
 
 
@@ -321,7 +339,7 @@ class Ctx:
         self.cov["discharged"] = res["discharged"] + (gen_obligations if res["ok"] else 0)
         self.cov["theorems"] = res["theorems"]
         self.cov["non_vacuity_examples"] = res["examples"]
-        self.cov["checker_cmd"] = "cd /verif/coq && coq_makefile -f _CoqProject -o Makefile && make -k -j16 Props/Properties_%s.vo  (coqc 8.16.1, full .vo build; Properties file force-recompiled on every run)" % self.pid
+        self.cov["checker_cmd"] = "tools/coqmake.sh %s  (= coq_makefile -f _CoqProject && make -k -j16 <targets>; coqc 8.16.1, full .vo build; the Properties files are force-recompiled on every run)" % " ".join(f[:-2] + ".vo" for f in res.get("files", []))
         axs = sorted({a for v in res["axioms"].values() for a in v})
         self.cov["axioms_per_theorem"] = res["axioms"]
         tb = list(STD_TRUSTED)
